@@ -471,3 +471,14 @@ def havoc_target(interp, t, env):
             pass
         else:
             raise Unsupported(f"cannot havoc subscript store on {type(o).__name__}")
+
+
+# ===================================================================================== loops over a symbolic list
+def loop_over_list(interp, st, env, lst, sl=None):
+    """for x in <list of arbitrary length>: cut with the contract's invariant (or havoc only)."""
+    sig = loop_signature(st)
+    inv = interp.loop_invariants.get(sig)
+    handler = interp.__dict__.get('list_loop_handlers', {}).get(sig)
+    if handler is not None:
+        return handler(interp, st, env, lst, sl)
+    raise Unsupported(f"loop over a list of arbitrary length without a handler: {sig}")
